@@ -373,6 +373,21 @@ func runC10(c *Ctx) {
 					name = call.Common().Method.Name()
 				} else if cal := call.Common().StaticCallee(); cal != nil && !region[cal] {
 					name = cal.Name()
+				} else if _, isParam := call.Common().Value.(*ssa.Parameter); isParam && cal == nil {
+					// an operation handed to a helper as a function value (k.createAndSave(ctx, k.T.CreateNewSigningKeyVersion)):
+					// it creates a key if every function that can arrive there does
+					all := true
+					cs := c.P.Callees(call)
+					for _, g := range cs {
+						n := strings.TrimSuffix(g.Name(), "$bound")
+						if !strings.HasPrefix(n, "Create") && !strings.HasPrefix(n, "Generate") {
+							all = false
+						}
+						name = n
+					}
+					if !all || len(cs) == 0 {
+						name = ""
+					}
 				}
 				if strings.HasPrefix(name, "Create") || strings.HasPrefix(name, "Generate") {
 					return []esp.Ev{{ID: 0, Name: "key created by " + callName(call), ErrIdx: errIndex(call.Common().Signature()), BoolIdx: -1}}
